@@ -74,16 +74,31 @@ func (args *AtDateAndTimeArgs) AtTime(now gotime.Time, config app.Config) (klog.
 	if today.IsEqualTo(date) {
 		return time, nil
 	} else if today.PlusDays(-1).IsEqualTo(date) {
-		shiftedTime, _ := time.Plus(klog.NewDuration(24, 0))
+		shiftedTime, sErr := time.Plus(klog.NewDuration(24, 0))
+		if sErr != nil {
+			return nil, newUnrepresentableTimeError()
+		}
 		return shiftedTime, nil
 	} else if today.PlusDays(1).IsEqualTo(date) {
-		shiftedTime, _ := time.Plus(klog.NewDuration(-24, 0))
+		shiftedTime, sErr := time.Plus(klog.NewDuration(-24, 0))
+		if sErr != nil {
+			return nil, newUnrepresentableTimeError()
+		}
 		return shiftedTime, nil
 	}
 	return nil, app.NewErrorWithCode(
 		app.LOGICAL_ERROR,
 		"Missing time parameter",
 		"Please specify a time value for dates in the past",
+		nil,
+	)
+}
+
+func newUnrepresentableTimeError() app.Error {
+	return app.NewErrorWithCode(
+		app.LOGICAL_ERROR,
+		"Unrepresentable time",
+		"The time cannot be expressed relative to the date of the record",
 		nil,
 	)
 }
